@@ -98,6 +98,28 @@ def check(ctx):
     check_count_columns(ctx)
     check_nothing_to_discriminate(ctx)
     check_override(ctx)
+    # the marker table the selection works on is the one in the reference
+    # marker file, thinned to the query genes by re-shaping its sparse
+    # arrays: the index arrays keep an integer type that holds their
+    # values through that re-shaping (sa/rules/capacity.py)
+    from ..rules.capacity import (check_index_cast_to_input_dtype,
+                                  check_index_arithmetic_widened,
+                                  check_borrowed_dtype)
+    n_fn = 0
+    for fi_ in ctx.db.iter_functions():
+        if fi_.module.short in ('utils.csc_to_csr',
+                                'utils.csc_to_csr_parallel',
+                                'marker_selection.marker_array',
+                                'diff_exp.sparse_markers'):
+            n_fn += 1
+            check_index_cast_to_input_dtype(ctx, fi_)
+            check_index_arithmetic_widened(ctx, fi_)
+            check_borrowed_dtype(ctx, fi_)
+    ctx.ok('R-CAP/index-cast-to-input-type', 're-shaping of the marker '
+           'table', 'package', f'{n_fn} functions of the transposition '
+           'and marker-array modules: no index array is forced into the '
+           'type of an input array or multiplied by a size unwidened',
+           nontrivial=True)
     from ..rules.forwarding import check_forwarding
     check_forwarding(ctx, {
         'n_per_utility', 'genes_at_a_time', 'query_gene_names',
